@@ -303,9 +303,12 @@ U64 = 2 ** 64
 class Env:
     """maps Rust paths to Gallina terms.  paths: 'self.incarnation' -> '(inc a)'."""
 
-    def __init__(self, paths, width=U64):
+    def __init__(self, paths, width=U64, wrap=False):
         self.paths = dict(paths)
         self.width = width
+        # wrap=True: plain + - * are the machine's (release-build) wrapping operations at `width`;
+        # wrap=False: unbounded N (subtraction truncates at 0)
+        self.wrap = wrap
 
 
 def path_of(e):
@@ -338,7 +341,7 @@ def coq(e, env):
     if k == "cast":
         return coq(e[2], env)
     if k == "let":
-        return "(let %s := %s in %s)" % (e[1], coq(e[2], Env(env.paths, env.width)), coq(e[3], Env({**env.paths, e[1]: e[1]}, env.width)))
+        return "(let %s := %s in %s)" % (e[1], coq(e[2], Env(env.paths, env.width, env.wrap)), coq(e[3], Env({**env.paths, e[1]: e[1]}, env.width, env.wrap)))
     if k == "if":
         return "(if %s then %s else %s)" % (coq(e[1], env), coq(e[2], env), coq(e[3], env))
     if k == "bin":
@@ -353,6 +356,13 @@ def coq(e, env):
             "+": "(%s + %s)", "*": "(%s * %s)", "/": "(%s / %s)", "%%": "(%s mod %s)",
             "-": "(%s - %s)",
         }
+        if env.wrap and op in ("+", "-", "*"):
+            w = env.width
+            if op == "+":
+                return "((%s + %s) mod %d)" % (A, B, w)
+            if op == "*":
+                return "((%s * %s) mod %d)" % (A, B, w)
+            return "((%s + %d - %s) mod %d)" % (A, w, B, w)
         if op == ">":
             return "(N.ltb %s %s)" % (B, A)
         if op == ">=":
